@@ -37,6 +37,8 @@ def families(tier, seed):
         for be in ('cudd', 'autoref'):
             out.append(dict(name=f'synthesized program #{i} [{be}] {cgen.E2E[i][1]}', run=cgen.tv_synthesized(i, be), label='bounded'))
             out.append(dict(name=f'end-to-end #{i} [{be}] {cgen.E2E[i][1]}', run=cgen.e2e_program(i, be), label='bounded'))
+    from contracts import optdiff as _od
+    out.append(dict(name='same results with assert statements stripped (python -O), section C13', run=_od.family('C13'), label='bounded'))
     return out
 
 
